@@ -53,16 +53,15 @@ theorem asciiCC_sane : Sane asciiCC := tableCC_sane [] [] [] []
 /-! ## shapes -/
 def D : R := .cls false [.cat .digit false]
 def signPM : R := R.opt (.cls false [.chr '+', .chr '-'])
-def signMP : R := R.opt (.cls false [.chr '-', .chr '+'])
-def expR : R := .seq (.cls false [.chr 'e', .chr 'E']) (.seq signPM (R.plus D))
+def expR : R := .seq (.cls false [.chr 'E', .chr 'e']) (.seq signPM (R.plus D))
 def tailR : R :=
-  .seq (.behind false false [.cat .word false, .chr '.']) (.ahead true (.cls false [.cat .word false, .chr '.']))
+  .seq (.behind false false [.chr '.', .cat .word false]) (.ahead true (.cls false [.chr '.', .cat .word false]))
 def mantF : R := .alt (.seq (R.plus D) (R.opt (.seq (.chr '.') (.star true D)))) (.seq (.chr '.') (R.plus D))
 def floatRe : R := .seq signPM (.seq mantF (.seq (R.opt expR) tailR))
 def mantS : R := .alt (.seq (R.plus D) (.seq (.chr '.') (R.opt (.star true D)))) (.seq (.chr '.') (R.plus D))
 def strictBody : R := .alt (.seq mantS (R.opt expR)) (.seq (R.plus D) expR)
 def strictRe : R := .seq signPM (.seq strictBody tailR)
-def intRe : R := .seq signMP (R.plus (.cls false [.range '0' '9']))
+def intRe : R := .seq signPM (R.plus (.cls false [.range '0' '9']))
 /-- one branch of STRING: `q(\\q|[^q])*q` -/
 def strBody (q : Char) : R := .alt (.seq (.chr '\\') (.chr q)) (.cls true [.chr q])
 def strRe (q : Char) : R := .seq (.chr q) (.seq (.star true (strBody q)) (.chr q))
@@ -85,8 +84,8 @@ theorem clsTest_09 (cc : CharClasses) (c : Char) : clsTest cc false [.range '0' 
   simp [clsTest, CItem.test, asciiDigit]
 
 theorem clsTest_wd (cc : CharClasses) (c : Char) :
-    clsTest cc false [.cat .word false, .chr '.'] c = (cc.isWord c || c == '.') := by
-  simp [clsTest, CItem.test, Cat.test]
+    clsTest cc false [.chr '.', .cat .word false] c = (cc.isWord c || c == '.') := by
+  simp [clsTest, CItem.test, Cat.test, Bool.or_comm]
 
 theorem clsTest_pair (cc : CharClasses) (a b c : Char) :
     clsTest cc false [.chr a, .chr b] c = (c == a || c == b) := by
@@ -214,12 +213,12 @@ theorem hd_tail (hs : Sane cc) (q : Option Char) (rest : List Char) (hq : GoodPr
     (hb : NumBoundary cc rest) : Hd cc tailR (q, rest) (q, rest) := by
   obtain ⟨c, hq, hc⟩ := hq
   subst hq
-  have h1 : clsTest cc false [.cat .word false, .chr '.'] c = true := by
+  have h1 : clsTest cc false [.chr '.', .cat .word false] c = true := by
     rw [clsTest_wd]
     rcases hc with h | h
     · simp [hs.digit_word c h]
     · simp [h]
-  have h2 : step (clsTest cc false [.cat .word false, .chr '.']) (some c, rest) = [] := by
+  have h2 : step (clsTest cc false [.chr '.', .cat .word false]) (some c, rest) = [] := by
     apply step_stops
     intro x hx
     rw [clsTest_wd]
@@ -545,7 +544,7 @@ theorem int_hd (i : IntLit) (hi : i.WF) (rest : List Char) (hrest : Stops asciiD
   have e : i.text ++ rest = i.sg ++ (i.d :: (i.ds ++ rest)) := by simp [IntLit.text]
   rw [e]
   unfold intRe
-  refine Hd.seq (hd_sign '-' '+' (Or.inr ⟨rfl, rfl⟩) i.sg _ p hsg ?_) ?_
+  refine Hd.seq (hd_sign '+' '-' (Or.inl ⟨rfl, rfl⟩) i.sg _ p hsg ?_) ?_
   · intro _ c hc
     simp at hc; subst hc
     constructor <;> (intro h; rw [h] at hd; revert hd; decide)
